@@ -629,6 +629,8 @@ func CorpusHistories(scratch string, names map[string]bool) ([]*History, []strin
 				s.scriptEvidence = [][]byte{s.Val(0).Addr, s.Val(1).Addr, s.User(1).Addr}
 			case 5:
 				s.scriptEvidence = [][]byte{s.Val(2).Addr, s.User(0).Addr}
+			case 6: // the same validator named twice in one block (same evidence height): two cuts, one after the other
+				s.scriptEvidence = [][]byte{s.Val(1).Addr, s.Val(1).Addr}
 			}
 			return nil
 		}, func(g *Genesis) { easyParams(g); g.Params.SlashRatio = 30 }},
